@@ -223,6 +223,8 @@ class StmtMixin:
             if a is None or b is None: raise _NeedsDo()
             unify(rt, at); unify(rt, bt)
             return '(if %s then %s else %s)' % (c, a, b), rt
+        if k == 'Match' and any(g is not None for _, g, _ in e.arms):
+            return self.pure_branch_term(self.desugar_guard(e), want)
         if k == 'Match':
             s, sty = self.ex(e.scrut)
             rt = TVar()
@@ -375,6 +377,9 @@ class StmtMixin:
                 cur = nxt
             self.ind = base
             return
+        if k == 'Match' and any(g is not None for _, g, _ in e.arms):
+            self.ind = base
+            return self.branch_stmt(self.desugar_guard(e), sink, prefix)
         if k == 'Match':
             s, sty = self.ex(e.scrut)
             head('match %s with' % s)
@@ -465,6 +470,20 @@ class StmtMixin:
             pl.set('%s.insert %s %s' % (par(pl.get()), key, par(t)))
         return '%s[%s]?' % (par(pl.get()), k), ('opt', mt[2]), p.elems[0].name, setter
 
+    def desugar_guard(self, e):
+        """`match s { x if g => A, rest… }` (first arm: a plain binding with a guard) is
+        `{ let x = s; if g { A } else { match x { rest… } } }`; other uses of guards are rejected"""
+        p, g, body = e.arms[0]
+        while p.kind == 'PRef': p = p.inner
+        if g is None or p.kind != 'PIdent' or any(g2 is not None for _, g2, _ in e.arms[1:]):
+            self.fail('match guards are only supported on a leading `name if cond` arm', e.line)
+        x = N('Path', e.line, segs=[(p.name, [])])
+        mk_block = lambda b: b if b.kind == 'Block' else N('Block', b.line, stmts=[], tail=b, end_line=b.line)
+        rest = N('Match', e.line, scrut=x, arms=e.arms[1:], end_line=getattr(e, 'end_line', e.line))
+        iff = N('If', e.line, cond=g, then=mk_block(body), els=N('Block', e.line, stmts=[], tail=rest, end_line=e.line), end_line=e.line)
+        let = N('Let', e.line, pat=N('PIdent', e.line, name=p.name, mut=False, by_ref=False), ty=None, init=e.scrut, els=None, end_line=e.line)
+        return N('Block', e.line, stmts=[let], tail=iff, end_line=getattr(e, 'end_line', e.line))
+
     def fresh_if_shadowing_mut(self, rust_name):
         """Lean cannot shadow a `let mut` variable: a Rust re-declaration of such a name gets a numbered Lean name"""
         name = lean_ident(rust_name)
@@ -494,6 +513,9 @@ class StmtMixin:
         if k == 'PLit':
             if p.lit == 'int': return str(p.val)
             if p.lit == 'bool': return 'true' if p.val else 'false'
+            if p.lit == 'char':
+                unify(ty, ('char',))
+                return lean_char(p.val)
             self.fail('string literal patterns are not supported', p.line)
         if k == 'PTuple':
             t = res(ty)
@@ -509,6 +531,10 @@ class StmtMixin:
             if p.segs[-1] == 'None':
                 unify(ty, ('opt', TVar()))
                 return 'none'
+            var = self.resolve_variant(list(p.segs))
+            if var is not None and var[2] == 'unit':
+                unify(ty, ('enum', var[0]))
+                return '%s.%s' % (var[0], lean_ident(var[1]))
             self.fail('path pattern `%s` is not supported' % '::'.join(p.segs), p.line)
         if k == 'PTupleStruct':
             head = p.segs[-1]
@@ -527,6 +553,17 @@ class StmtMixin:
             if head in NEWTYPES:
                 unify(ty, NEWTYPES[head])
                 return self.pat(p.elems[0], NEWTYPE_INNER[NEWTYPES[head][0]], wild, collect_mut)
+            var = self.resolve_variant(list(p.segs))
+            if var is not None and var[2] == 'tuple':
+                key, vname, kind, fields = var
+                unify(ty, ('enum', key))
+                if getattr(p, 'rest', False) and len(p.elems) < len(fields):
+                    if p.elems: self.fail('`..` after leading sub-patterns is not supported', p.line)
+                    subs = ['_'] * len(fields)
+                else:
+                    if len(p.elems) != len(fields): self.fail('pattern arity of %s.%s' % (key, vname), p.line)
+                    subs = [par(self.pat(x, ft, wild, collect_mut)) for x, (_, ft) in zip(p.elems, fields)]
+                return ' '.join(['%s.%s' % (key, lean_ident(vname))] + subs)
             self.fail('tuple-struct pattern `%s` is not supported' % head, p.line)
         if k == 'PStruct':
             head = p.segs[-1]
@@ -662,6 +699,13 @@ class StmtMixin:
                     pt = res(pop_pl.ty)
                     if isinstance(pt, TVar) or pt[0] != 'vec': self.fail('pop() on a non-Vec', e.line)
                     scrut = lambda: ('%s.back?' % par(pop_pl.get()), ('opt', pt[1]))
+                    pop_op = '%s.pop'
+                elif scrut_e.kind == 'MethodCall' and scrut_e.name == 'next' and not scrut_e.args and \
+                        self.try_place(scrut_e.recv) is not None and res(self.try_place(scrut_e.recv).ty) == ('chars',):
+                    # `while let Some(c) = chars.next()`: the character iterator is the list of remaining characters
+                    pop_pl = self.try_place(scrut_e.recv)
+                    scrut = lambda: ('%s.head?' % par(pop_pl.get()), ('opt', ('char',)))
+                    pop_op = '%s.tail'
                 else:
                     def scrut():
                         (t, ty), lines, eff = self.capture(lambda: self.ex(cond.e))
@@ -676,7 +720,7 @@ class StmtMixin:
                     self.ind = base + 4
                     if pop_pl is not None:
                         pop_pl._cache = None
-                        pop_pl.set('%s.pop' % par(pop_pl.get()))
+                        pop_pl.set(pop_op % par(pop_pl.get()))
                     self.block_stmts(e.body, ('discard',))
                 finally:
                     self.pop()
